@@ -52,9 +52,28 @@ func genFloatBits(r *vlib.R) float64 {
 	}
 }
 
+// wireSpecials are valid UTF-8 strings made of code points that sanitising / re-encoding code tends to mangle
+var wireSpecials = []string{"\uFFFD", "a\uFFFDb", "\uFFFD\uFFFD", "\x00", "a\x00b", "\uFEFF", "\U0010FFFF", "\u2028", "\u0085", "\x7f", "\u00a0", "\ud7ff\ue000"}
+
+func wireStr(r *vlib.R) string {
+	s := r.Str()
+	if r.Chance(0.15) {
+		sp := wireSpecials[r.Intn(len(wireSpecials))]
+		switch r.Intn(3) {
+		case 0:
+			s = sp
+		case 1:
+			s += sp
+		default:
+			s = sp + s
+		}
+	}
+	return s
+}
+
 func genWirePoint(r *vlib.R) data.Point {
 	p := data.Point{
-		Type: r.Str(), Key: r.Str(), Text: r.Str(), Origin: r.Str(),
+		Type: wireStr(r), Key: wireStr(r), Text: wireStr(r), Origin: wireStr(r),
 		Value: genFloatBits(r), Time: genWireTime(r),
 	}
 	switch r.Intn(5) {
@@ -249,7 +268,7 @@ func runC12(tier string, _ []string) int {
 			c.Distinct(cls)
 
 			// node round trips
-			ne := data.NodeEdge{ID: r.Str(), Type: r.Str(), Parent: r.Str(), Hash: r.Uint32(), Points: pts}
+			ne := data.NodeEdge{ID: wireStr(r), Type: wireStr(r), Parent: wireStr(r), Hash: r.Uint32(), Points: pts}
 			ne.EdgePoints = make(data.Points, r.Intn(3))
 			for j := range ne.EdgePoints {
 				ne.EdgePoints[j] = genWirePoint(r)
